@@ -14,7 +14,8 @@ EXPLANATION = (
     "field (fallback: add_to_unknown_fields ↔ serialize_struct2_with_unknown_fields, into_unknown_variant ↔ serialize_unknown_variant); unknown variants "
     "without fallback are an error; where Introspectable is derived too, its field / variant ids equal those of the codec; (R3) the runtime half of the fallback clause in aldrin_core — add_to_unknown_fields / "
     "into_unknown_variant store every unknown field / variant under its id on every non-error path, serialize_unknown_fields (both encodings) / "
-    "serialize_unknown_variant write id and value of every captured one. A defect in the generator "
+    "serialize_unknown_variant write id and value of every captured one; (R4) the four default-id counters of the derive generators (the proc-macro crate "
+    "is analysed as a program here) all advance as `previous item's id() + 1`. A defect in the generator "
     "shows up in every expansion that uses the feature. NOT decided: 'for every valid schema' (the generator as a function), that generated code compiles "
     "(that is the build)."
 )
@@ -152,6 +153,7 @@ def run(rep):
     rep.floor("C16-R2", "generated types with introspection", n_intro, 20)
     rep.analysed["corpus_types"] = n_types
     r3(rep, prog)
+    r4(rep, prog)
 
 
 def err_edges(b):
@@ -216,3 +218,37 @@ def r3(rep, prog):
     ok = len(se) == 1 and b.describe(se[0].args[1]) == {"AsUnknownVariant::id(variant)"} and b.describe(se[0].args[2]) == {"AsUnknownVariant::value(variant)"} \
         and not (set(b.exits()) & b.reachable(0, without_nodes={se[0].bb}))
     rep.check(ok, "C16-R3", b.def_, "replays-unknown-variant", "serialize_unknown_variant must write the captured id and value as an enum", line=b.span, detail={})
+
+
+def r4(rep, prog, rule="C16-R4"):
+    """the derive generators agree on default ids: Serialize / Deserialize (enum_data.rs, struct_data.rs) and Introspectable
+    (introspectable.rs) each number an item without explicit id as `previous item's id + 1`; a generator that counts positions
+    instead gives a type whose introspection (and type id) disagrees with its wire format"""
+    n = 0
+    for d, b in sorted(prog.bodies.items()):
+        if not d.startswith("aldrin_macros::derive::") or "::test" in d:
+            continue
+        cands = set()
+        for c in b.calls:
+            if c.name == "new" and re.search(r"(ItemOptions|VariantData|FieldData)", c.callee or ""):
+                for a in c.args[1:]:
+                    l = b.base_through(a)
+                    if l is not None and l > b.argc and b.locals[l].get("user") and b.locals[l]["ty"] == "u32":
+                        cands.add(l)
+        for l in sorted(cands):
+            defs = b.defs().get(l, [])
+            if len(defs) < 2:
+                continue
+            n += 1
+            forms = []
+            for ent in defs:
+                if ent[0] == "stmt" and ent[3]["r"].get("o"):
+                    forms.extend(sorted(b.describe(ent[3]["r"]["o"][0])))
+                elif ent[0] == "call":
+                    forms.append("call:" + ent[2].name)
+            adv = [f for f in forms if not re.match(r"^const:\d+_u32$", f)]
+            ok = bool(adv) and all(re.match(r"^AddWithOverflow\(\w+::id\(.*\), const:1_u32\)", f) for f in adv)
+            rep.check(ok, rule, d, "default-id-follows-previous:%s" % (b.locals[l].get("name") or l),
+                      "the default id of the next item must be `previous item's id() + 1` in every derive generator; here it advances as %s — items after an explicit #[aldrin(id = N)] get different ids in the codec and in the introspection" % adv,
+                      line=b.span, detail={"forms": forms})
+    rep.floor(rule, "default-id counters in the derive generators", n, 4)
